@@ -29,6 +29,8 @@ Definition tpc (c : cfg) (p : pc) : list pc :=
   | PConnCheck (S l) => [PCE; PDial l]
   | PSubCheck => [PDone; POpen]
   | PDeliver MErrResp | PDeliver MNil => [PRecv true]
+  | PFinished => [PIdle]      (* Remove completes *)
+  | PIdle => [PLoop]          (* an Add of the second client goroutine takes effect *)
   | _ => []
   end.
 
@@ -38,7 +40,8 @@ Definition vpc (c : cfg) (p : pc) (e : event) : list pc :=
   | EAdd _ | EReconnectCalled | EReconnectReturned true | ERemoveCalled => [p]
   | EReconnectReturned false | ERemoveReturned false =>
       match p with PIdle => [p] | _ => [] end
-  | ERemoveReturned true => match p with PFinished => [PIdle] | _ => [] end
+  | ERemoveReturned true => [p]
+  | XCalled _ | XReturned _ _ | EGateClosed | EGateOpen => [p]
   | EHang | EStall => []
   | ECred ok => match p with PMeta => [if ok then PConnCheck (c_hops c) else PCE] | _ => [] end
   | EDial ok => match p with PDial l => [if ok then PSubCheck else PConnCheck l] | _ => [] end
@@ -75,26 +78,15 @@ Ltac inv_in H :=
 
 Lemma tau_pc c s s' : In s' (tau c s) -> s_pc s' = s_pc s \/ In (s_pc s') (tpc c (s_pc s)).
 Proof.
-  unfold tau. intros H.
-  apply in_app_or in H; destruct H as [H|H].
-  { destruct (s_rmc s && negb (s_cdone s)); inv_in H; subst; auto. }
-  apply in_app_or in H; destruct H as [H|H].
-  { destruct (s_rc s); inv_in H; subst; auto. }
-  apply in_app_or in H; destruct H as [H|H].
-  { destruct (c_timeout c && s_hu s && managed s && negb (s_sdone s)); inv_in H; subst; auto. }
-  apply in_app_or in H; destruct H as [H|H].
-  { destruct (stale_reconnect_by_name && managed s && negb (s_sdone s)); [|destruct H].
-    apply in_app_or in H; destruct H as [H|H].
-    - destruct (s_stale s); inv_in H; subst; auto.
-    - destruct (c_timeout c && s_phu s); inv_in H; subst; auto. }
-  right. destruct (s_pc s) as [ | | |n|l| | | |b|m|m| | | | | ]; cbn in *; inv_in H; subst; cbn; auto.
+  unfold tau. intros H. inv_in H; subst; cbn [s_pc set_pc]; auto.
+  all: right; cbn; auto.
 Qed.
 
 Lemma vis_pc c s e s' : In s' (vis c s e) -> In (s_pc s') (vpc c (s_pc s) e).
 Proof.
-  destruct s as [p rmc cd sd rc hu stl phu ad]. unfold vis, managed; cbn [s_pc s_rmc s_cdone s_sdone s_rc s_hu s_stale s_phu s_add].
+  destruct s as [p rmc cd sd rc hu stl phu ad xs rr]. unfold vis, managed; cbn [s_pc s_rmc s_cdone s_sdone s_rc s_hu s_stale s_phu s_add s_x s_rr].
   intros H.
-  destruct e as [ |ok| |ok| |ok| | |ok|ok| |ok|ok|r| |n| | | | ]; cbn in H |- *;
+  destruct e as [ |ok| |ok| |ok| | |ok|ok| |ok|ok|r| |n| | | | |k|k ok| | ]; cbn in H |- *;
     inv_in H; subst; cbn; auto.
   all: destruct p; cbn in *; auto; discriminate.
 Qed.
@@ -167,7 +159,7 @@ Lemma Rlang_vis c p e p' d :
   In p' (vpc c p e) -> Rlang p d -> exists d', dstep_all d e = Some d' /\ Rlang p' d'.
 Proof.
   unfold dstep_all.
-  destruct e as [ |ok| |ok| |ok| | |ok|ok| |ok|ok|r| |n| | | | ]; cbn; intros H HR;
+  destruct e as [ |ok| |ok| |ok| | |ok|ok| |ok|ok|r| |n| | | | |k|k ok| | ]; cbn; intros H HR;
     inv_in H; subst; cbn in *;
     repeat match goal with
            | H : _ \/ _ |- _ => destruct H
@@ -278,7 +270,7 @@ Qed.
 Lemma Rstream_vis c p e p' m :
   In p' (vpc c p e) -> Rstream p m -> exists m', mstep m e = Some m' /\ Rstream p' m'.
 Proof.
-  destruct e as [ |ok| |ok| |ok| | |ok|ok| |ok|ok|r| |n| | | | ]; cbn; intros H HR;
+  destruct e as [ |ok| |ok| |ok| | |ok|ok| |ok|ok|r| |n| | | | |k|k ok| | ]; cbn; intros H HR;
     inv_in H; subst; cbn in *; subst; cbn;
     repeat match goal with
            | b : bool |- _ => destruct b
@@ -300,96 +292,6 @@ Lemma model_k_stream c tr s :
 Proof.
   intros H Hq. destruct (model_stream_discipline _ _ _ H) as (m & Hm & HR).
   unfold k_stream. rewrite Hm. destruct (s_pc s); cbn in *; try discriminate; subst; auto.
-Qed.
-
-(** * K3: silence *)
-
-Definition sstep (man : bool) (e : event) : option bool :=
-  match e with
-  | EAddCalled => Some true
-  | ERemoveReturned true => Some false
-  | _ => if is_marker e || man then Some man else None
-  end.
-
-Lemma k_silence_orun man tr : k_silence man tr = true <-> orun sstep man tr <> None.
-Proof.
-  revert man; induction tr as [|e tr IH]; intros man; cbn; [split; congruence|].
-  destruct e as [ |ok| |ok| |ok| | |ok|ok| |ok|ok|r| |n| | | | ]; cbn; try apply IH;
-    try (destruct ok; cbn; apply IH);
-    destruct man; cbn; try apply IH; split; congruence.
-Qed.
-
-Definition Rsil (p : pc) (man : bool) : Prop :=
-  man = match p with PIdle => false | _ => true end.
-
-Lemma Rsil_tau c p p' m : In p' (tpc c p) -> Rsil p m -> Rsil p' m.
-Proof.
-  unfold Rsil.
-  destruct p as [ | | |n|l| | | |b|x|x| | | | | ]; cbn; intros H; inv_in H; subst; cbn; auto.
-Qed.
-
-Lemma Rsil_vis c p e p' m :
-  In p' (vpc c p e) -> Rsil p m -> exists m', sstep m e = Some m' /\ Rsil p' m'.
-Proof.
-  unfold Rsil.
-  destruct e as [ |ok| |ok| |ok| | |ok|ok| |ok|ok|r| |n| | | | ]; cbn; intros H HR;
-    inv_in H; subst; cbn in *; eauto;
-    repeat match goal with b : bool |- _ => destruct b end; cbn; eauto.
-  all: destruct p; cbn; eauto.
-Qed.
-
-Lemma model_silence c tr s : run c init tr s -> k_silence false tr = true.
-Proof.
-  intros H. apply k_silence_orun.
-  destruct (simulation sstep Rsil c (Rsil_tau c) (Rsil_vis c) _ _ _ H false eq_refl) as (m & Hm & _).
-  congruence.
-Qed.
-
-(** declarative reading of K3: a goroutine letter that follows a successful
-    Remove is preceded by a later call of Add *)
-Lemma k_silence_gen tr : forall man,
-  k_silence man tr = true ->
-  forall a e b, tr = a ++ e :: b -> is_gor e = true -> man = true \/ In EAddCalled a.
-Proof.
-  induction tr as [|x tr IH]; intros man H a e b Heq Hg.
-  - destruct a; discriminate.
-  - destruct a as [|y a]; cbn in Heq; inversion Heq; subst; clear Heq.
-    + unfold is_gor in Hg. destruct man; auto.
-      destruct e; cbn in *; discriminate.
-    + destruct y; cbn in H;
-        try (apply andb_true_iff in H; destruct H as [_ H]);
-        try (destruct (IH _ H _ _ _ eq_refl Hg); [auto|right; right; auto]; fail).
-      * right; left; auto.
-      * destruct ok.
-        -- destruct (IH _ H _ _ _ eq_refl Hg); [discriminate|right; right; auto].
-        -- try (apply andb_true_iff in H; destruct H as [_ H]).
-           destruct (IH _ H _ _ _ eq_refl Hg); [auto|right; right; auto].
-Qed.
-
-Lemma k_silence_false_spec tr :
-  k_silence false tr = true ->
-  forall a e b, tr = a ++ e :: b -> is_gor e = true -> In EAddCalled a.
-Proof.
-  intros H a e b Heq Hg. destruct (k_silence_gen _ _ H _ _ _ Heq Hg); [discriminate|auto].
-Qed.
-
-Lemma k_silence_sound tr :
-  k_silence false tr = true ->
-  forall a b e b', tr = a ++ ERemoveReturned true :: b ++ e :: b' -> is_gor e = true ->
-                   In EAddCalled b.
-Proof.
-  revert tr. 
-  assert (G : forall tr man, k_silence man tr = true ->
-              forall a b, tr = a ++ ERemoveReturned true :: b -> k_silence false b = true).
-  { induction tr as [|x tr IH]; intros man H a b Heq.
-    - destruct a; discriminate.
-    - destruct a as [|y a]; cbn in Heq; inversion Heq; subst; clear Heq.
-      + cbn in H. auto.
-      + cbn in H.
-        destruct y; try (apply andb_true_iff in H; destruct H as [_ H]); try (eapply IH; eauto; fail).
-        destruct ok; [eapply IH; eauto|]. apply andb_true_iff in H; destruct H as [_ H]. eapply IH; eauto. }
-  intros tr H a b e b' Heq Hg.
-  specialize (G _ _ H _ _ Heq). eapply (k_silence_false_spec _ G b e b'); eauto.
 Qed.
 
 (** * Soundness of the executable acceptance function (mode A) *)
@@ -446,19 +348,6 @@ Qed.
 Lemma final_quiescent s : final s = true -> quiescent (s_pc s) = true.
 Proof. unfold final. destruct (s_pc s); auto; discriminate. Qed.
 
-(** what acceptance of a log by the model implies for the log itself *)
-Lemma accepts_spec c tr :
-  accepts c tr = true ->
-  emits c tr /\ sessions (callbacks tr) /\ k_stream tr = true /\ k_silence false tr = true.
-Proof.
-  intros H. destruct (accepts_sound _ _ H) as (s & Hrun & Hf). apply final_quiescent in Hf.
-  repeat split.
-  - exists s; auto.
-  - eapply model_sessions; eauto.
-  - eapply model_k_stream; eauto.
-  - eapply model_silence; eauto.
-Qed.
-
 (** * K4: refusals (needs the flags, not only the control point) *)
 
 Section MonitorSt.
@@ -480,153 +369,151 @@ Section MonitorSt.
   Qed.
 End MonitorSt.
 
-Definition rstep (man : bool) (e : event) : option bool :=
-  match e with
-  | EAdd ok => if Bool.eqb ok (negb man) then Some (man || ok) else None
-  | ERemoveReturned ok => if Bool.eqb ok man then Some false else None
-  | EReconnectReturned ok => if Bool.eqb ok man then Some man else None
-  | _ => Some man
-  end.
 
-Lemma k_refuse_orun man tr : k_refuse man tr = true <-> orun rstep man tr <> None.
-Proof.
-  revert man; induction tr as [|e tr IH]; intros man; cbn; [split; congruence|].
-  destruct e; cbn; try apply IH.
-  all: destruct (Bool.eqb ok _); cbn; [apply IH|split; congruence].
-Qed.
+(** * Well-formedness of reachable states, K3 (silence) and K4 (refusals) *)
 
 Definition add_none (s : st) : bool := match s_add s with AddNone => true | _ => false end.
 Definition rc_none (s : st) : bool := match s_rc s with RcNone => true | _ => false end.
+Definition x_addst (s : st) : bool :=
+  match s_x s with XP KAdd | XE KAdd => true | _ => false end.
+Definition x_eff (s : st) : bool := match s_x s with XE _ => true | _ => false end.
 
-(** calls for one name do not overlap; flags are only set while managed *)
+(** the first goroutine's calls do not overlap each other; the second one calls
+    only during a Remove in progress and gets through only after it; flags are
+    only set while managed *)
 Definition wfb (s : st) : bool :=
-  implb (s_rmc s) (managed s && add_none s && rc_none s)
-  && implb (negb (rc_none s)) (managed s && add_none s)
-  && implb (negb (add_none s)) (managed s)
+  implb (s_rmc s) (managed s && add_none s && rc_none s && negb (s_rr s) && negb (x_eff s))
+  && implb (negb (rc_none s)) (managed s && add_none s && negb (s_rr s) && x_none s)
+  && implb (negb (add_none s)) (managed s && negb (s_rr s) && x_none s)
   && implb (s_cdone s) (s_rmc s)
-  && implb (match s_pc s with PFinished => true | _ => false end) (s_cdone s).
+  && implb (match s_pc s with PFinished => true | _ => false end) (s_cdone s)
+  && implb (match s_x s with XP _ => true | _ => false end) (s_rmc s || negb (managed s))
+  && implb (match s_x s with XE KAdd => true | _ => false end) (managed s)
+  && implb (match s_x s with XE KRemove | XE KReconnect => true | _ => false end) (negb (managed s)).
 
-(** managed from the caller's point of view: Add has returned *)
-Definition manb (s : st) : bool :=
-  managed s && negb (match s_add s with AddFresh => true | _ => false end).
-
-Ltac crush_flags :=
-  repeat match goal with
-         | |- context [match ?x with _ => _ end] => destruct x eqn:?; cbn in *; try discriminate
-         | |- context [if ?x then _ else _] => destruct x eqn:?; cbn in *; try discriminate
-         end.
-
-Lemma wf_tau c s s' : In s' (tau c s) -> wfb s = true -> wfb s' = true /\ manb s' = manb s.
-Proof.
-  destruct s as [p rmc cd sd rc hu stl phu ad]. unfold tau, wfb, manb, managed, add_none, rc_none.
-  cbn [s_pc s_rmc s_cdone s_sdone s_rc s_hu s_stale s_phu s_add].
-  intros H W. inv_in H; subst; cbn in *; try discriminate; auto.
-  all: try (destruct rmc, cd, rc, ad; cbn in *; try discriminate; auto; fail).
-  all: try (destruct p; cbn in *; try discriminate; destruct rmc, cd, rc, ad; cbn in *; try discriminate; auto; fail).
-Qed.
-
-Lemma wf_vis c s e s' :
-  In s' (vis c s e) -> wfb s = true -> wfb s' = true /\ rstep (manb s) e = Some (manb s').
-Proof.
-  destruct s as [p rmc cd sd rc hu stl phu ad]. unfold vis, wfb, manb, managed, add_none, rc_none.
-  cbn [s_pc s_rmc s_cdone s_sdone s_rc s_hu s_stale s_phu s_add].
-  intros H W.
-  destruct e as [ |ok| |ok| |ok| | |ok|ok| |ok|ok|r| |n| | | | ]; cbn in H |- *;
-    inv_in H; subst; cbn in *; try discriminate; auto.
-  all: try (destruct rmc, cd, rc, ad; cbn in *; try discriminate; auto; fail).
-  all: try (destruct p; cbn in *; try discriminate; destruct rmc, cd, rc, ad; cbn in *; try discriminate; auto; fail).
-  all: repeat match goal with
-              | b : bool |- _ => destruct b
-              | b : rcst |- _ => destruct b
-              | b : addst |- _ => destruct b
-              end; cbn in *; try discriminate; auto.
-  all: destruct p; cbn in *; try discriminate; auto.
-Qed.
-
-Definition Rref (s : st) (man : bool) : Prop := wfb s = true /\ man = manb s.
-
-Lemma model_refusals_gen c s tr s' :
-  run c s tr s' -> wfb s = true ->
-  exists man', orun rstep (manb s) tr = Some man' /\ wfb s' = true /\ man' = manb s'.
-Proof.
-  intros Hrun W.
-  destruct (simulation_st rstep Rref c) with (s := s) (tr := tr) (s' := s') (x := manb s)
-    as (x' & Hx & HR); auto.
-  - intros s0 s1 x Hin [W0 ->]. destruct (wf_tau _ _ _ Hin W0) as [W1 E]. split; auto.
-  - intros s0 e s1 x Hin [W0 ->]. destruct (wf_vis _ _ _ _ Hin W0) as [W1 E].
-    exists (manb s1). split; auto. split; auto.
-  - split; auto.
-  - destruct HR as [W' E]. exists x'; auto.
-Qed.
-
-Lemma model_refusals c tr s : run c init tr s -> k_refuse false tr = true.
-Proof.
-  intros H. apply k_refuse_orun.
-  destruct (model_refusals_gen _ _ _ _ H eq_refl) as (m & Hm & _). cbn in Hm. congruence.
-Qed.
-
-Lemma reachable_wf c tr s : run c init tr s -> wfb s = true.
-Proof. intros H. destruct (model_refusals_gen _ _ _ _ H eq_refl) as (m & _ & W & _). auto. Qed.
-
-(** declarative readings of K4 *)
-Fixpoint no_remove_ok (tr : list event) : bool :=
-  match tr with
-  | [] => true
-  | ERemoveReturned true :: _ => false
-  | _ :: tr' => no_remove_ok tr'
+(** K3 as a step function *)
+Definition sstep (x : nat * nat) (e : event) : option (nat * nat) :=
+  let '(n, pend) := x in
+  match e with
+  | EAddCalled | XCalled KAdd => Some (S n, S pend)
+  | EAdd true | XReturned KAdd true => Some (n, pred pend)
+  | EAdd false | XReturned KAdd false => Some (pred n, pred pend)
+  | ERemoveReturned true | XReturned KRemove true => Some (pred n, pend)
+  | ERemoveReturned false | XReturned KRemove false => Some (pend, pend)
+  | _ => if is_marker e || negb (Nat.eqb n 0) then Some x else None
   end.
 
-Fixpoint no_add_ok (tr : list event) : bool :=
-  match tr with
-  | [] => true
-  | EAdd true :: _ => false
-  | _ :: tr' => no_add_ok tr'
+Lemma k_silence_orun tr : forall n pend,
+  k_silence_n n pend tr = true <-> orun sstep (n, pend) tr <> None.
+Proof.
+  induction tr as [|e tr IH]; intros n pend; cbn; [split; congruence|].
+  destruct e as [ |ok| |ok| |ok| | |ok|ok| |ok|ok|r| |n0| | | | |k|k ok| | ]; cbn; try apply IH;
+    try (destruct ok; cbn; apply IH);
+    try (destruct k; cbn; try apply IH; destruct ok; cbn; apply IH);
+    destruct (Nat.eqb n 0); cbn; try apply IH; split; congruence.
+Qed.
+
+(** K4 as a step function *)
+Definition rstep (x : nat * bool) (e : event) : option (nat * bool) :=
+  let '(m, rmp) := x in
+  let meff := if rmp then pred m else m in
+  match e with
+  | EAdd ok => if Bool.eqb ok (Nat.eqb m 0) then Some (if ok then S m else m, rmp) else None
+  | ERemoveCalled => Some (m, negb (Nat.eqb m 0))
+  | ERemoveReturned ok => if Bool.eqb ok rmp then Some (if ok then pred m else m, false) else None
+  | EReconnectReturned ok => if Bool.eqb ok (negb (Nat.eqb m 0)) then Some x else None
+  | XReturned KAdd ok =>
+      if Bool.eqb ok (Nat.eqb meff 0) then Some (if ok then S m else m, rmp) else None
+  | XReturned KRemove ok =>
+      if Bool.eqb ok (negb (Nat.eqb meff 0)) then Some (if ok then pred m else m, rmp) else None
+  | XReturned KReconnect ok =>
+      if Bool.eqb ok (negb (Nat.eqb meff 0)) then Some x else None
+  | _ => Some x
   end.
 
-Lemma k_refuse_stays_managed m : forall ok,
-  no_remove_ok m = true -> k_refuse true (m ++ [EAdd ok]) = true -> ok = false.
+Lemma k_refuse_orun tr : forall m rmp,
+  k_refuse_n m rmp tr = true <-> orun rstep (m, rmp) tr <> None.
 Proof.
-  induction m as [|e m IH]; intros ok Hn H.
-  - cbn in H. destruct ok; auto; discriminate.
-  - destruct e; cbn in Hn, H; try (eapply IH; eauto; fail).
-    + destruct ok0; cbn in H; [discriminate|]. eapply IH; eauto.
-    + apply andb_true_iff in H. destruct H as [_ H]. eapply IH; eauto.
-    + destruct ok0; cbn in *; discriminate.
+  induction tr as [|e tr IH]; intros m rmp; cbn; [split; congruence|].
+  destruct e as [ |ok| |ok| |ok| | |ok|ok| |ok|ok|r| |n0| | | | |k|k ok| | ]; cbn; try apply IH.
+  all: try (destruct k; cbn).
+  all: match goal with
+       | |- context [Bool.eqb ?a ?b] => destruct (Bool.eqb a b); cbn; [apply IH|split; congruence]
+       end.
 Qed.
 
-Lemma k_refuse_suffix a : forall man b,
-  k_refuse man (a ++ b) = true -> exists man', k_refuse man' b = true.
+(** what the two monitors' counters are in a model state *)
+Definition b2n (b : bool) : nat := if b then 1 else 0.
+
+Definition sil_base (s : st) : nat :=
+  b2n (managed s) + b2n (match s_add s with AddDup => true | _ => false end)
+  + b2n (match s_x s with XP KAdd => true | _ => false end).
+
+Definition sil_pend (s : st) : nat := b2n (negb (add_none s)) + b2n (x_addst s).
+
+Definition ref_m (s : st) : nat :=
+  b2n (managed s && negb (match s_add s with AddFresh => true | _ => false end)
+       && negb (match s_x s with XE KAdd => true | _ => false end))
+  + b2n (s_rr s).
+
+Definition Rinv (s : st) (x : (nat * nat) * (nat * bool)) : Prop :=
+  let '((n, pend), (m, rmp)) := x in
+  wfb s = true
+  /\ pend = sil_pend s
+  /\ (n = sil_base s + b2n (s_rr s) \/ (s_rr s = true /\ n = 0 /\ sil_base s = 0))
+  /\ m = ref_m s
+  /\ rmp = (s_rmc s || s_rr s).
+
+Definition istep (x : (nat * nat) * (nat * bool)) (e : event) : option ((nat * nat) * (nat * bool)) :=
+  match sstep (fst x) e, rstep (snd x) e with
+  | Some a, Some b => Some (a, b)
+  | _, _ => None
+  end.
+
+(** case analysis driven by what the goal and the hypotheses actually inspect,
+    pruning inconsistent branches at once *)
+Ltac prune :=
+  cbn in *; try discriminate;
+  try (repeat split; auto; try lia; fail);
+  try (intuition (try discriminate; try congruence; try lia); fail).
+
+Ltac split_var :=
+  match goal with
+  | H : context [match ?v with _ => _ end] |- _ => is_var v; destruct v; prune
+  | H : context [if ?v then _ else _] |- _ => is_var v; destruct v; prune
+  | H : context [negb ?v] |- _ => is_var v; destruct v; prune
+  | H : context [?v || _] |- _ => is_var v; destruct v; prune
+  | H : context [?v && _] |- _ => is_var v; destruct v; prune
+  | |- context [match ?v with _ => _ end] => is_var v; destruct v; prune
+  | |- context [if ?v then _ else _] => is_var v; destruct v; prune
+  | |- context [negb ?v] => is_var v; destruct v; prune
+  | |- context [b2n ?v] => is_var v; destruct v; prune
+  | |- context [?v || _] => is_var v; destruct v; prune
+  | |- context [?v && _] => is_var v; destruct v; prune
+  | H : context [b2n ?v] |- _ => is_var v; destruct v; prune
+  end.
+
+Ltac adaptive := prune; repeat split_var.
+
+Lemma Rinv_tau c s s' x : In s' (tau c s) -> Rinv s x -> Rinv s' x.
 Proof.
-  induction a as [|e a IH]; intros man b H; cbn in H; eauto.
-  destruct e; try (eapply IH; eauto; fail); apply andb_true_iff in H; destruct H as [_ H]; eauto.
+  destruct x as [[n pend] [m rmp]]. destruct s as [p rmc cd sd rc hu stl phu ad xs rr].
+  unfold Rinv, tau, wfb, sil_base, sil_pend, ref_m, managed, add_none, rc_none, x_none, x_addst, x_eff.
+  cbn [s_pc s_rmc s_cdone s_sdone s_rc s_hu s_stale s_phu s_add s_x s_rr].
+  intros H (W & Hp & Hn & Hm & Hr).
+  inv_in H; subst s'; cbn [s_pc s_rmc s_cdone s_sdone s_rc s_hu s_stale s_phu s_add s_x s_rr set_pc] in *.
+  all: try (repeat split; auto; fail).
+  all: subst; adaptive.
 Qed.
 
-Lemma duplicate_add_refused_k a m ok :
-  k_refuse false (a ++ EAdd true :: m ++ [EAdd ok]) = true -> no_remove_ok m = true -> ok = false.
+Lemma Rinv_vis c s e s' x :
+  In s' (vis c s e) -> Rinv s x -> exists x', istep x e = Some x' /\ Rinv s' x'.
 Proof.
-  intros H Hn. apply k_refuse_suffix in H. destruct H as (man & H).
-  cbn in H. apply andb_true_iff in H. destruct H as [_ H].
-  rewrite orb_true_r in H. eapply k_refuse_stays_managed; eauto.
-Qed.
-
-Lemma k_refuse_stays_unmanaged m : forall ok,
-  no_add_ok m = true -> k_refuse false (m ++ [ERemoveReturned ok]) = true -> ok = false.
-Proof.
-  induction m as [|e m IH]; intros ok Hn H.
-  - cbn in H. destruct ok; auto; discriminate.
-  - destruct e; cbn in Hn, H; try (eapply IH; eauto; fail).
-    all: destruct ok0; cbn in *; try discriminate; eapply IH; eauto.
-Qed.
-
-Lemma unknown_remove_refused_first m ok :
-  k_refuse false (m ++ [ERemoveReturned ok]) = true -> no_add_ok m = true -> ok = false.
-Proof. intros; eapply k_refuse_stays_unmanaged; eauto. Qed.
-
-Lemma unknown_remove_refused_k a m ok ok0 :
-  k_refuse false (a ++ ERemoveReturned ok0 :: m ++ [ERemoveReturned ok]) = true ->
-  no_add_ok m = true -> ok = false.
-Proof.
-  intros H Hn. apply k_refuse_suffix in H. destruct H as (man & H).
-  cbn in H. apply andb_true_iff in H. destruct H as [_ H].
-  eapply k_refuse_stays_unmanaged; eauto.
-Qed.
+  destruct x as [[n pend] [m rmp]]. destruct s as [p rmc cd sd rc hu stl phu ad xs rr].
+  unfold Rinv, istep, vis, wfb, sil_base, sil_pend, ref_m, managed, add_none, rc_none, x_none, x_addst, x_eff.
+  cbn [s_pc s_rmc s_cdone s_sdone s_rc s_hu s_stale s_phu s_add s_x s_rr fst snd].
+  intros H (W & Hp & Hn & Hm & Hr).
+  destruct e as [ |ok| |ok| |ok| | |ok|ok| |ok|ok|r| |n0| | | | |k|k ok| | ];
+    cbn [sstep rstep is_marker orb];
+    inv_in H; subst s'; cbn [s_pc s_rmc s_cdone s_sdone s_rc s_hu s_stale s_phu s_add s_x s_rr set_pc] in *.
+  all: subst; try (eexists; split; [reflexivity|]; adaptive; fail).
